@@ -14,7 +14,7 @@ import (
 func init() {
 	register("C12",
 		"that the start offset is measured from the right Jie instant and converted without rounding loss (numeric); that ages/years line up with the birth year beyond the affine relations checked here (AX-AGE).",
-		r12_1, r12_2, r12_3, r12_4, r12_5, r12_6)
+		r12_1, r12_2, r12_3, r12_4, r12_5, r12_6, r12_7)
 }
 
 // evalBoolOnPath evaluates a boolean SSA value along a path given truth values for atoms.
@@ -482,4 +482,77 @@ func r12_6(c *Ctx, r *Report) {
 		}
 		return false
 	}, 5)
+}
+
+// R12.7: the two ends of the start-offset interval get their two-hour slot the same way.
+func r12_7(c *Ctx, r *Report) {
+	const rule = "R12.7"
+	r.rule(rule, "School 1 measures the hour part of the start offset as a difference of two-hour slots. In Yun.computeStart the slot of the interval's end and the slot of its start are the two operands of one subtraction; as symbolic expression trees (calls, guards as phis) they must be the same function of their own moment — in particular both or neither carry the 23:00 special case. A slot computed differently at one end shifts every offset whose start or end falls in that hour.")
+	fn := c.Fn(r, rule, "calendar.(*Yun).computeStart")
+	if fn == nil {
+		return
+	}
+	isSlotCall := func(v ssa.Value) bool {
+		call, ok := v.(*ssa.Call)
+		return ok && call.Common().StaticCallee() != nil && fname(call.Common().StaticCallee()) == "LunarUtil.GetTimeZhiIndex"
+	}
+	var findMoment func(v ssa.Value, depth int) ssa.Value
+	findMoment = func(v ssa.Value, depth int) ssa.Value {
+		if depth > 6 || v == nil {
+			return nil
+		}
+		switch x := v.(type) {
+		case *ssa.Call:
+			if callee := x.Common().StaticCallee(); callee != nil && (callee.Name() == "ToYmdHms" || callee.Name() == "GetHour" || callee.Name() == "GetMinute") && len(x.Common().Args) == 1 {
+				return x.Common().Args[0]
+			}
+			for _, a := range x.Common().Args {
+				if m := findMoment(a, depth+1); m != nil {
+					return m
+				}
+			}
+		case *ssa.Phi:
+			for _, e := range x.Edges {
+				if m := findMoment(e, depth+1); m != nil {
+					return m
+				}
+			}
+		case *ssa.Slice:
+			return findMoment(x.X, depth+1)
+		case *ssa.BinOp:
+			if m := findMoment(x.X, depth+1); m != nil {
+				return m
+			}
+			return findMoment(x.Y, depth+1)
+		}
+		return nil
+	}
+	n := 0
+	for _, b := range fn.Blocks {
+		for _, ins := range b.Instrs {
+			bo, ok := ins.(*ssa.BinOp)
+			if !ok || bo.Op != token.SUB || !isIntType(bo.Type()) {
+				continue
+			}
+			if !treeContains(bo.X, isSlotCall, 0) || !treeContains(bo.Y, isSlotCall, 0) {
+				continue
+			}
+			n++
+			me, ms := findMoment(bo.X, 0), findMoment(bo.Y, 0)
+			construct := "calendar.(*Yun).computeStart: slot(end) - slot(start)"
+			if me == nil || ms == nil || me == ms {
+				r.bad(rule, construct, c.pos(bo.Pos()), "the moments whose slots are subtracted could not be identified (undecided = fail)")
+				continue
+			}
+			a := symExpr(c, bo.X, nil, map[ssa.Value]string{me: "@"}, 0)
+			bb := symExpr(c, bo.Y, nil, map[ssa.Value]string{ms: "@"}, 0)
+			short := func(s string) string { return strings.ReplaceAll(strings.ReplaceAll(s, "calendar.(*Solar).", ""), "LunarUtil.", "") }
+			if a == bb {
+				r.ok(rule, construct, c.pos(bo.Pos()), "both ends: "+short(a))
+			} else {
+				r.bad(rule, construct, c.pos(bo.Pos()), "the end's slot is "+short(a)+" but the start's slot is "+short(bb)+": the two ends of the interval are not measured alike")
+			}
+		}
+	}
+	r.check(n == 1, rule, "calendar.(*Yun).computeStart has one slot difference", c.fnPos(fn), fmt.Sprintf("%d subtractions of two slot indices found", n))
 }
